@@ -7,6 +7,8 @@
 (*   3 items  mandatory, renamed key "Items", custom (de)serialiser (list) *)
 (*   4 prio   optional,  renamed key "Priority", enum with its own FromStr *)
 (*   5 flag   optional,  renamed key "Flag", custom (de)serialiser (bool)  *)
+(*   6 note   optional,  renamed key "Note", default codec (String): its    *)
+(*            value 1 is the EMPTY text - a present field, not an absent one *)
 (* Values are ids (0 = absent optional); the harness owns value <-> text.  *)
 (* The contract, on paragraphs as ordered lists (Deb822EditP):             *)
 (*   To(x)      = own fields in declaration order, absent optionals left   *)
@@ -22,18 +24,19 @@ EXTENDS Deb822EditP, Json, TLC
 CONSTANT Deep   \* TRUE: every prior paragraph of up to 3 fields over own and foreign keys; every struct's paragraph with
                 \* one or two fields made unparsable and/or a mandatory field removed, in declaration and in reverse order
 
-KeyNames == <<"name", "X-Count", "Items", "Priority", "Flag">>
+KeyNames == <<"name", "X-Count", "Items", "Priority", "Flag", "Note">>
+NF == 6
 Mandatory == {1, 3}
-Dom == << {1, 2}, {0, 1, 2}, {1, 2}, {0, 1, 2}, {0, 1, 2} >>
-Structs == { <<a, b, c, d, e>> : a \in Dom[1], b \in Dom[2], c \in Dom[3], d \in Dom[4], e \in Dom[5] }
+Dom == << {1, 2}, {0, 1, 2}, {1, 2}, {0, 1, 2}, {0, 1, 2}, {0, 1, 2} >>
+Structs == { <<a, b, c, d, e, f>> : a \in Dom[1], b \in Dom[2], c \in Dom[3], d \in Dom[4], e \in Dom[5], f \in Dom[6] }
 Bad == 99                   \* a text that the field's deserialiser rejects
 
 RECURSIVE ToFrom(_,_)
-ToFrom(x, i) == IF i > 5 THEN <<>> ELSE (IF x[i] = 0 THEN <<>> ELSE << <<i, x[i]>> >>) \o ToFrom(x, i + 1)
+ToFrom(x, i) == IF i > NF THEN <<>> ELSE (IF x[i] = 0 THEN <<>> ELSE << <<i, x[i]>> >>) \o ToFrom(x, i + 1)
 To(x) == ToFrom(x, 1)                       \* pairs <<own key index, value id>>
 
 RECURSIVE UpdFrom(_,_,_)
-UpdFrom(x, p, i) == IF i > 5 THEN p
+UpdFrom(x, p, i) == IF i > NF THEN p
                     ELSE UpdFrom(x, IF x[i] = 0 THEN ParaRemove(p, i) ELSE ParaSet(p, i, x[i]), i + 1)
 Update(x, p) == UpdFrom(x, p, 1)
 
@@ -41,16 +44,18 @@ Get(p, k) == LET j == FirstIdx(p, k) IN IF j = 0 THEN 0 ELSE p[j][2]
 \* From: <<"ok", struct>> | <<"missing", key>> | <<"invalid", key>>  (first offending field in declaration order)
 RECURSIVE FromAt(_,_,_)
 FromAt(p, i, acc) ==
-  IF i > 5 THEN <<"ok", acc>>
+  IF i > NF THEN <<"ok", acc>>
   ELSE LET v == Get(p, i) IN
        IF v = 0 /\ i \in Mandatory THEN <<"missing", i>>
        ELSE IF v = Bad THEN <<"invalid", i>>
        ELSE FromAt(p, i + 1, Append(acc, v))
 From(p) == FromAt(p, 1, <<>>)
 
-\* prior paragraphs for update: own keys (old values 7, 8), foreign keys 6 ("Other") and 7 ("Zeta")
-Priors == { <<>>, << <<6, 7>> >>, << <<6, 7>>, <<1, 7>>, <<7, 8>> >>, << <<4, 1>>, <<6, 7>>, <<2, 2>>, <<5, 1>> >>,
-            << <<3, 7>>, <<3, 8>>, <<1, 1>> >>, << <<7, 8>>, <<5, 2>>, <<6, 7>>, <<4, 2>> >> }
+\* prior paragraphs for update: own keys (old values 7, 8), foreign keys F1 ("Other") and F2 ("Zeta")
+F1 == NF + 1
+F2 == NF + 2
+Priors == { <<>>, << <<F1, 7>> >>, << <<F1, 7>>, <<1, 7>>, <<F2, 8>> >>, << <<4, 1>>, <<F1, 7>>, <<2, 2>>, <<5, 1>> >>,
+            << <<3, 7>>, <<3, 8>>, <<1, 1>> >>, << <<F2, 8>>, <<5, 2>>, <<F1, 7>>, <<4, 2>> >> }
 \* paragraphs to read back that must fail
 Broken == { [p |-> << <<3, 1>> >>, e |-> <<"missing", 1>>],
             [p |-> << <<1, 1>>, <<2, 1>> >>, e |-> <<"missing", 3>>],
@@ -61,12 +66,12 @@ Broken == { [p |-> << <<3, 1>> >>, e |-> <<"missing", 1>>],
 
 \* --- systematic scopes (Deep)
 OldVal(pos) == IF pos = 2 THEN 8 ELSE 7
-PriorsDeep == UNION { { [i \in 1..n |-> <<ks[i], OldVal(i)>>] : ks \in [1..n -> 1..7] } : n \in 0..3 }
+PriorsDeep == UNION { { [i \in 1..n |-> <<ks[i], OldVal(i)>>] : ks \in [1..n -> 1..(NF + 2)] } : n \in 0..3 }
 Rev(q) == [i \in 1..Len(q) |-> q[Len(q) + 1 - i]]
 Mangle(x, S, R) == LET t == To(x) IN
   SelectSeq([i \in 1..Len(t) |-> IF t[i][1] \in S THEN <<t[i][1], Bad>> ELSE t[i]], LAMBDA f : f[1] \notin R)
 \* every offending field of a paragraph (the property asks that the error names ONE of them; From names the first)
-Offenders(p) == { <<"missing", i>> : i \in { m \in Mandatory : Get(p, m) = 0 } } \cup { <<"invalid", i>> : i \in { k \in 1..5 : Get(p, k) = Bad } }
+Offenders(p) == { <<"missing", i>> : i \in { m \in Mandatory : Get(p, m) = 0 } } \cup { <<"invalid", i>> : i \in { k \in 1..NF : Get(p, k) = Bad } }
 \* (field 1 is a String: every text parses, so only fields 2..5 can be made unparsable)
 BrokenDeep == { q \in UNION { { Mangle(x, S, R), Rev(Mangle(x, S, R)) } :
                               x \in Structs, S \in { T \in SUBSET (2..5) : Cardinality(T) <= 2 }, R \in SUBSET Mandatory } :
@@ -83,8 +88,8 @@ Init ==
 RoundTrip == case.k = "update" =>
   /\ From(case.to) = <<"ok", case.x>>
   /\ From(case.upd) = <<"ok", case.x>>
-  /\ \A j \in 1..Len(case.prior) : case.prior[j][1] > 5 => \E i \in 1..Len(case.upd) : case.upd[i] = case.prior[j]      \* foreign fields kept
-  /\ SelectSeq(case.upd, LAMBDA f : f[1] > 5) = SelectSeq(case.prior, LAMBDA f : f[1] > 5)                                \* ... in order
+  /\ \A j \in 1..Len(case.prior) : case.prior[j][1] > NF => \E i \in 1..Len(case.upd) : case.upd[i] = case.prior[j]      \* foreign fields kept
+  /\ SelectSeq(case.upd, LAMBDA f : f[1] > NF) = SelectSeq(case.prior, LAMBDA f : f[1] > NF)                                \* ... in order
 BrokenOK == case.k = "broken" => From(case.prior) = case.err /\ case.err \in case.off
 Emit == PrintT(<<"REPLAY", ToJson(case)>>)
 =============================================================================
